@@ -103,7 +103,7 @@ def _cli_sig_verify(cname, sg, pk, msg, pre, fi):
     with _ctx(cname):
         out = cliutil.result(cli.run_main(argv, stdin=cliutil.fmt_in(pk, fi)))
     if not out.endswith(os.linesep.encode()) or out.count(b"\n") != 1:
-        raise RuntimeError("CliVerifyPrinted:%r" % out[:30])
+        raise cliutil.CliMalformed("verdict line: %r" % out[:30])
     return out == b"OK" + os.linesep.encode()      # anything else printed is a verdict of "not valid"
 
 
